@@ -8,7 +8,7 @@ import sys
 import time
 
 VERIF = os.path.dirname(os.path.dirname(os.path.abspath(__file__)))
-SEEDS = (0, 1, 7)
+SEEDS = tuple(int(x) for x in os.environ.get("VERIF_SEEDCHECK_SEEDS", "0,1,7").split(","))
 COUNT_KEYS = ("evaluations", "distinct_nontrivial", "states", "transitions", "distinct_outcomes")
 
 
